@@ -673,5 +673,333 @@ theorem ncountmore_eq_spec (mem : Mem) (fuel : Nat) (len : Option Nat) (pos : Po
   rw [this] at hl
   exact ⟨hi, hl⟩
 
+
+/-! ### the clauses of the property, on the grapheme-wise specification -/
+
+theorem specRun_pos (L : Option Limit) (t : Tail) : ∀ (gs : List (List Ch)) (here : Pos),
+    (specRun L gs t here).pos = sumPos here (gs.take (specTaken L gs t here)).flatten ∧
+    specTaken L gs t here ≤ gs.length := by
+  intro gs
+  induction gs with
+  | nil => intro here; cases t <;> simp [specRun, specTaken, sumPos]
+  | cons g gs ih =>
+    intro here
+    unfold specRun specTaken
+    by_cases hw : Within L (sumPos here g)
+    · simp only [hw, if_true]
+      by_cases he : gs = [] ∧ t = Tail.err
+      · simp [he, sumPos]
+      · simp only [he, if_false]
+        obtain ⟨h1, h2⟩ := ih (sumPos here g)
+        refine ⟨?_, by simp; omega⟩
+        rw [h1, Nat.add_comm 1, List.take_succ_cons, List.flatten_cons, sumPos_append]
+    · simp [hw, sumPos]
+
+theorem specRun_within (L : Option Limit) (t : Tail) : ∀ (gs : List (List Ch)) (here : Pos),
+    (specRun L gs t here).pos = here ∨ Within L (specRun L gs t here).pos := by
+  intro gs
+  induction gs with
+  | nil => intro here; cases t <;> simp [specRun]
+  | cons g gs ih =>
+    intro here
+    unfold specRun
+    by_cases hw : Within L (sumPos here g)
+    · simp only [hw, if_true]
+      by_cases he : gs = [] ∧ t = Tail.err
+      · simp [he]
+      · simp only [he, if_false]
+        rcases ih (sumPos here g) with h | h
+        · right; rw [h]; exact hw
+        · right; exact h
+    · simp [hw]
+
+/-- Every grapheme-prefix that was counted fits (not only the last one). -/
+theorem specRun_prefix_within (L : Option Limit) (t : Tail) : ∀ (gs : List (List Ch)) (here : Pos) (i : Nat),
+    0 < i → i ≤ specTaken L gs t here → Within L (sumPos here (gs.take i).flatten) := by
+  intro gs
+  induction gs with
+  | nil => intro here i h0 h1; simp [specTaken] at h1; omega
+  | cons g gs ih =>
+    intro here i h0 h1
+    unfold specTaken at h1
+    by_cases hw : Within L (sumPos here g)
+    · simp only [hw, if_true] at h1
+      by_cases he : gs = [] ∧ t = Tail.err
+      · simp [he] at h1; omega
+      · simp only [he, if_false] at h1
+        cases i with
+        | zero => omega
+        | succ k =>
+          rw [List.take_succ_cons, List.flatten_cons, sumPos_append]
+          cases k with
+          | zero => simpa [sumPos] using hw
+          | succ k' => exact ih (sumPos here g) (k' + 1) (by omega) (by omega)
+    · simp [hw] at h1; omega
+
+theorem specRun_maximal (L : Option Limit) (t : Tail) : ∀ (gs : List (List Ch)) (here : Pos),
+    (specRun L gs t here).err = false → ∀ g rest, gs.drop (specTaken L gs t here) = g :: rest →
+      ¬ Within L (sumPos (specRun L gs t here).pos g) := by
+  intro gs
+  induction gs with
+  | nil => intro here _ g rest h; simp at h
+  | cons g0 gs ih =>
+    intro here herr g rest hd
+    unfold specRun at herr ⊢
+    unfold specTaken at hd
+    by_cases hw : Within L (sumPos here g0)
+    · simp only [hw, if_true] at herr hd ⊢
+      by_cases he : gs = [] ∧ t = Tail.err
+      · simp [he] at herr
+      · simp only [he, if_false] at herr hd ⊢
+        rw [Nat.add_comm 1, List.drop_succ_cons] at hd
+        exact ih (sumPos here g0) herr g rest hd
+    · simp only [hw, if_false] at hd ⊢
+      simp only [List.drop_zero, List.cons.injEq] at hd
+      rw [← hd.1]; exact hw
+
+theorem specRun_err_iff (L : Option Limit) (t : Tail) : ∀ (gs : List (List Ch)) (here : Pos),
+    (specRun L gs t here).err = true ↔ (t = Tail.err ∧ AllFit L here gs) := by
+  intro gs
+  induction gs with
+  | nil => intro here; cases t <;> simp [specRun, AllFit]
+  | cons g gs ih =>
+    intro here
+    unfold specRun AllFit
+    by_cases hw : Within L (sumPos here g)
+    · simp only [hw, if_true, true_and]
+      by_cases he : gs = [] ∧ t = Tail.err
+      · obtain ⟨rfl, rfl⟩ := he; simp [AllFit]
+      · simp only [he, if_false]; exact ih (sumPos here g)
+    · simp [hw]
+
+/-- Not an error and everything counted: the input ended at the terminator / length. -/
+theorem specRun_all_eof (L : Option Limit) (t : Tail) : ∀ (gs : List (List Ch)) (here : Pos),
+    (specRun L gs t here).err = false → specTaken L gs t here = gs.length → t = Tail.eof := by
+  intro gs
+  induction gs with
+  | nil => intro here h _; cases t <;> simp_all [specRun]
+  | cons g gs ih =>
+    intro here herr hl
+    unfold specRun at herr
+    unfold specTaken at hl
+    by_cases hw : Within L (sumPos here g)
+    · simp only [hw, if_true] at herr hl
+      by_cases he : gs = [] ∧ t = Tail.err
+      · simp [he] at herr
+      · simp only [he, if_false] at herr hl
+        exact ih (sumPos here g) herr (by simp at hl; omega)
+    · simp [hw] at hl
+
+/-- **Resumption** on the specification: counting on from where a smaller limit stopped gives the same
+    result as counting in one go, error outcome included. -/
+theorem specRun_resume (L1 L2 : Option Limit) (hle : LimitLe L1 L2) (t : Tail) :
+    ∀ (gs : List (List Ch)) (here : Pos),
+      specRun L2 (gs.drop (specTaken L1 gs t here)) t (specRun L1 gs t here).pos = specRun L2 gs t here := by
+  intro gs
+  induction gs with
+  | nil => intro here; cases t <;> simp [specRun, specTaken]
+  | cons g gs ih =>
+    intro here
+    by_cases hw : Within L1 (sumPos here g)
+    · have hw2 : Within L2 (sumPos here g) := hle _ hw
+      by_cases he : gs = [] ∧ t = Tail.err
+      · simp [specRun, specTaken, hw, he]
+      · have e1 : specRun L1 (g :: gs) t here = specRun L1 gs t (sumPos here g) := by
+          rw [specRun]; simp only [hw, he, if_true, if_false]
+        have e2 : specTaken L1 (g :: gs) t here = specTaken L1 gs t (sumPos here g) + 1 := by
+          rw [specTaken]; simp only [hw, he, if_true, if_false]; omega
+        have e3 : specRun L2 (g :: gs) t here = specRun L2 gs t (sumPos here g) := by
+          rw [specRun]; simp only [hw2, he, if_true, if_false]
+        rw [e1, e2, e3, List.drop_succ_cons]
+        exact ih (sumPos here g)
+    · have e1 : specRun L1 (g :: gs) t here = ⟨false, here⟩ := by
+        rw [specRun]; simp only [hw, if_false]
+      have e2 : specTaken L1 (g :: gs) t here = 0 := by
+        rw [specTaken]; simp only [hw, if_false]
+      rw [e1, e2]; rfl
+
+
+/-! ### reads stay inside the input -/
+
+theorem contLoop_hi (mem : Mem) : ∀ (k q cp : Nat), (contLoop mem k q cp).2 ≤ q + k := by
+  intro k
+  induction k with
+  | zero => intro q cp; simp [contLoop]
+  | succ k ih =>
+    intro q cp
+    unfold contLoop
+    split
+    · simp
+    · have := ih (q + 1) (contAcc cp (mem q).toNat); omega
+
+theorem contLoop_some (mem : Mem) : ∀ (k q cp cp' hi : Nat), contLoop mem k q cp = (some cp', hi) →
+    hi = q + k ∧ ∀ i, q ≤ i → i < q + k → (mem i).toNat ≠ 0 := by
+  intro k
+  induction k with
+  | zero => intro q cp cp' hi h; simp [contLoop] at h; exact ⟨by omega, fun i h1 h2 => by omega⟩
+  | succ k ih =>
+    intro q cp cp' hi h
+    unfold contLoop at h
+    split at h
+    · cases h
+    · rename_i hne
+      obtain ⟨h1, h2⟩ := ih _ _ _ _ h
+      refine ⟨by omega, fun i hi1 hi2 => ?_⟩
+      by_cases hiq : i = q
+      · subst hiq; exact hne
+      · exact h2 i (by omega) (by omega)
+
+theorem contLoop_none_nul (mem : Mem) (nul : Nat) (hz : (mem nul).toNat = 0) :
+    ∀ (k q cp hi : Nat), q ≤ nul → contLoop mem k q cp = (none, hi) → hi ≤ nul + 1 := by
+  intro k
+  induction k with
+  | zero => intro q cp hi _ h; simp [contLoop] at h
+  | succ k ih =>
+    intro q cp hi hq h
+    unfold contLoop at h
+    split at h
+    · injection h with _ h2; omega
+    · rename_i hne
+      have : q ≠ nul := by rintro rfl; exact hne hz
+      exact ih _ _ _ (by omega) h
+
+theorem contLoop_some_nul (mem : Mem) (nul : Nat) (hz : (mem nul).toNat = 0)
+    (k q cp cp' hi : Nat) (hq : q ≤ nul) (h : contLoop mem k q cp = (some cp', hi)) :
+    hi = q + k ∧ q + k ≤ nul := by
+  obtain ⟨h1, h2⟩ := contLoop_some mem k q cp cp' hi h
+  refine ⟨h1, ?_⟩
+  rcases Nat.lt_or_ge nul (q + k) with hlt | hge
+  · exact absurd hz (h2 nul hq hlt)
+  · exact hge
+
+
+/-- `e` bounds (exclusively) the indices a call at offset `str` with remaining length `len` may read:
+    the end of the length, resp. one past the first NUL. -/
+def ReadBound (mem : Mem) (str : Nat) (len : Option Nat) (e : Nat) : Prop :=
+  match len with
+  | some l => str + l ≤ e
+  | none => ∃ nul, FirstNul mem str nul ∧ nul + 1 ≤ e
+
+theorem leadLen_cases (b : Nat) : leadLen b = 0 ∨ leadLen b = 2 ∨ leadLen b = 3 ∨ leadLen b = 4 := by
+  unfold leadLen; (repeat' split) <;> simp
+
+theorem nextUtf8_bound (mem : Mem) (p : Nat) (len : Option Nat) (e : Nat) (hb : ReadBound mem p len e)
+    (hl : len ≠ some 0) (h0 : (mem p).toNat ≠ 0) :
+    match nextUtf8 mem p len with
+    | .err hi => hi ≤ e
+    | .ok n _ hi => hi ≤ e ∧ ReadBound mem (p + n) (lenDec len n) e ∧ 0 < n := by
+  have hp1 : p + 1 ≤ e := by
+    unfold ReadBound at hb
+    cases len with
+    | some l => simp only at hb; have : l ≠ 0 := fun h => hl (by rw [h]); omega
+    | none =>
+      obtain ⟨nul, ⟨h1, h2, _⟩, h4⟩ := hb
+      have : p ≠ nul := by rintro rfl; exact h0 h2
+      omega
+  unfold nextUtf8
+  simp only [hl, h0, if_false]
+  by_cases hascii : (mem p).toNat < 0x80
+  · simp only [hascii, if_true]
+    refine ⟨hp1, ?_, by omega⟩
+    unfold ReadBound at hb ⊢
+    cases len with
+    | some l => simp only [lenDec, Option.map] at hb ⊢; have : l ≠ 0 := fun h => hl (by rw [h]); omega
+    | none =>
+      obtain ⟨nul, ⟨h1, h2, h3⟩, h4⟩ := hb
+      have : p ≠ nul := by rintro rfl; exact h0 h2
+      exact ⟨nul, ⟨by omega, h2, fun i hi1 hi2 => h3 i (by omega) hi2⟩, h4⟩
+  · simp only [hascii, if_false]
+    by_cases hll : leadLen (mem p).toNat = 0
+    · simp only [hll, if_true]; exact hp1
+    · simp only [hll, if_false]
+      by_cases hlt : lenLt len (leadLen (mem p).toNat) = true
+      · simp only [hlt, if_true]; exact hp1
+      · simp only [hlt]
+        have hn : 2 ≤ leadLen (mem p).toNat := by
+          rcases leadLen_cases (mem p).toNat with h | h | h | h <;> omega
+        generalize hN : leadLen (mem p).toNat = N at *
+        cases hcl : contLoop mem (N - 1) (p + 1) (leadBits (mem p).toNat) with
+        | mk o hi =>
+          cases o with
+          | none =>
+            simp only
+            cases len with
+            | some l =>
+              unfold ReadBound at hb; simp only at hb
+              have := contLoop_hi mem (N - 1) (p + 1) (leadBits (mem p).toNat)
+              rw [hcl] at this; simp only at this
+              simp only [lenLt, decide_eq_true_eq] at hlt
+              omega
+            | none =>
+              obtain ⟨nul, ⟨h1, h2, h3⟩, h4⟩ := hb
+              have : p ≠ nul := by rintro rfl; exact h0 h2
+              have := contLoop_none_nul mem nul h2 _ _ _ _ (by omega) hcl
+              omega
+          | some cp' =>
+            simp only
+            cases len with
+            | some l =>
+              unfold ReadBound at hb ⊢; simp only [lenDec, Option.map] at hb ⊢
+              obtain ⟨h1, _⟩ := contLoop_some mem _ _ _ _ _ hcl
+              simp only [lenLt, decide_eq_true_eq] at hlt
+              refine ⟨by omega, by omega, by omega⟩
+            | none =>
+              obtain ⟨nul, ⟨h1, h2, h3⟩, h4⟩ := hb
+              have hpn : p ≠ nul := by rintro rfl; exact h0 h2
+              obtain ⟨e1, e2⟩ := contLoop_some_nul mem nul h2 _ _ _ _ _ (by omega) hcl
+              refine ⟨by omega, ?_, by omega⟩
+              exact ⟨nul, ⟨by omega, h2, fun i hi1 hi2 => h3 i (by omega) hi2⟩, h4⟩
+
+theorem stepAt_bound (mem : Mem) (str : Nat) (len : Option Nat) (e : Nat) (hb : ReadBound mem str len e) :
+    match stepAt mem str len with
+    | .stop hi => hi ≤ e
+    | .err hi => hi ≤ e
+    | .ch n _ _ hi => hi ≤ e ∧ ReadBound mem (str + n) (lenDec len n) e ∧ 0 < n := by
+  unfold stepAt
+  by_cases hl : len = some 0
+  · simp [hl]
+  · simp only [hl, if_false]
+    by_cases h0 : (mem str).toNat = 0
+    · simp only [h0, if_true]
+      unfold ReadBound at hb
+      cases len with
+      | some l => simp only at hb; have : l ≠ 0 := fun h => hl (by rw [h]); omega
+      | none => obtain ⟨nul, ⟨h1, _, _⟩, h4⟩ := hb; omega
+    · simp only [h0, if_false]
+      have := nextUtf8_bound mem str len e hb hl h0
+      cases hn : nextUtf8 mem str len with
+      | err hi => rw [hn] at this; simpa using this
+      | ok n cp hi =>
+        rw [hn] at this
+        simp only at this ⊢
+        by_cases hc : cp < 0x20 ∨ (cp ≥ 0x80 ∧ cp < 0xa0)
+        · simp only [hc, if_true]; exact this.1
+        · simp only [hc, if_false]
+          by_cases hw : Width.wcwidth cp = -1
+          · simp only [hw, if_true]; exact this.1
+          · simp only [hw, if_false]; exact this
+
+theorem loop_bound (mem : Mem) (L : Option Limit) (start e : Nat) :
+    ∀ (fuel str : Nat) (len : Option Nat) (here pos : Pos) (hi : Nat) (r : Int) (p : Pos) (hi' : Nat),
+      ReadBound mem str len e → hi ≤ e →
+      loop mem L start fuel str len here pos hi = .ret r p hi' → hi' ≤ e := by
+  intro fuel
+  induction fuel with
+  | zero => intro str len here pos hi r p hi' _ _ h; simp [loop] at h
+  | succ f ih =>
+    intro str len here pos hi r p hi' hb hhi h
+    have hs := stepAt_bound mem str len e hb
+    unfold loop at h
+    split at h
+    · rename_i hh hst; rw [hst] at hs; simp only at hs
+      injection h with _ _ h3; omega
+    · rename_i hh hst; rw [hst] at hs; simp only at hs
+      injection h with _ _ h3; omega
+    · rename_i n cp w hh hst; rw [hst] at hs; simp only at hs
+      simp only at h
+      split at h
+      · injection h with _ _ h3; omega
+      · exact ih _ _ _ _ _ _ _ _ hs.2.1 (by omega) h
+
 end Utf8
 end Tickit
